@@ -414,6 +414,17 @@ def run_history(world, kind, hist, probes, res, viol, hi):
         outs = [c.apply(o) for o in seq]
         return c, outs
 
+    def culprit_of(followup, twin_outcomes):
+        """The single rejected insertion whose presence alone (all other rejected ones removed) reproduces the divergence."""
+        for j, (opj, outj, cwj) in enumerate(done):
+            if outj != "conflict":
+                continue
+            seq = [d[0] for i, d in enumerate(done) if d[1] == "ok" or i == j]
+            c, _ = replay_ops(seq)
+            if [c.apply(o) for o in followup] != twin_outcomes:
+                return f"{kind_of(opj)}:conflicting-with={cwj}"
+        return "several-rejections-combined"
+
     for step, op in enumerate(hist):
         twin, touts = replay_ops(accepted)
         res.mon()
@@ -440,12 +451,9 @@ def run_history(world, kind, hist, probes, res, viol, hi):
         if rejected_before:
             nontrivial = True
             res.count("steps_after_a_rejection")
-        culprit = None
-        if last_rejected is not None:
-            culprit = f"{kind_of(last_rejected[0])}:conflicting-with={last_rejected[1]}"
         if out_r != out_t:
             viol(
-                "rejected-insertion-remembered:" + (culprit or "none-rejected-before"),
+                "rejected-insertion-remembered:" + (culprit_of([op], [out_t]) if rejected_before else "none-rejected-before"),
                 f"{kind}: step {step} {op}: the container that saw the rejected insertions answers {out_r}, a twin that only received the accepted operations answers {out_t}",
                 history=hist[: step + 1],
                 outcomes=[d[1] for d in done] + [out_r],
@@ -478,7 +486,7 @@ def run_history(world, kind, hist, probes, res, viol, hi):
                     twin=show(twin.snapshot()),
                 )
                 return False, nontrivial
-        done.append((op, out_r))
+        done.append((op, out_r, last_rejected[1] if out_r == "conflict" else None))
         # ---- bounded look-ahead after a rejection: is anything remembered? -----------------------------------
         if out_r == "conflict" and lookaheads < MAX_LOOKAHEADS_PER_HISTORY:
             lookaheads += 1
@@ -502,7 +510,7 @@ def run_history(world, kind, hist, probes, res, viol, hi):
                     j = next(i for i in range(len(seq)) if o_r[i] != o_t[i])
                     res.count(f"manifestation:later-{kind_of(seq[j])}-{'refused' if o_r[j] == 'conflict' else 'accepted'}" + (":after-replacing-simulated-effect" if j > 0 else ""))
                     viol(
-                        "rejected-insertion-remembered:" + f"{kind_of(op)}:conflicting-with={last_rejected[1]}",
+                        "rejected-insertion-remembered:" + culprit_of(seq, o_t),
                         f"{kind}: after the rejected insertion {op} the follow-up {seq} is answered {o_r} by the container that saw the "
                         f"rejection and {o_t} by a twin that only received the accepted operations",
                         history=full,
